@@ -22,7 +22,8 @@ RULE = ("WRITE: an instrumented statement generator logs PULL(i) before yielding
         "handed over < frame_size. Clause 2: when the consumer stops after frame j, #PULL == #statements in frames 1..j; no "
         "PULL before the first frame is requested. PARSE: valid delimited streams are delivered through a source that stalls "
         "forever after frame boundary j (every j): a raw non-seekable object, a BufferedReader around it (the documented "
-        "'buffered binary stream', e.g. socket.makefile('rb')), and a real socketpair whose writer thread goes idle; flat and "
+        "'buffered binary stream', e.g. socket.makefile('rb')), a BufferedRWPair (socket.makefile('rwb')) and an "
+        "HTTPResponse-shaped BufferedIOBase, and a real socketpair whose writer thread goes idle; flat and "
         "grouped parsers of both integrations must have yielded every event of frames 1..j before the stall surfaces. "
         "Non-trivial: >= 3 frames and a stop/stall strictly inside the stream; distinct by (kind, configuration, k or j).")
 ASSUMPTIONS = [
@@ -234,12 +235,50 @@ class IdleSocketRaw(io.RawIOBase):
             time.sleep(0.0002)
 
 
+class _NullWriter(io.RawIOBase):
+    def writable(self):
+        return True
+
+    def write(self, b):
+        return len(b)
+
+
+class _ResponseLike(io.BufferedIOBase):
+    """Shaped like http.client.HTTPResponse: a non-seekable BufferedIOBase with read/readinto/read1/peek."""
+
+    def __init__(self, fp):
+        self.fp = fp
+
+    def readable(self):
+        return True
+
+    def seekable(self):
+        return False
+
+    def read(self, n=-1):
+        return self.fp.read(n)
+
+    def read1(self, n=-1):
+        return self.fp.read1(n)
+
+    def readinto(self, b):
+        return self.fp.readinto1(b)
+
+    def peek(self, n=0):
+        return self.fp.peek(n)
+
+
 def stall_source(kind: str, data: bytes, limit: int, rng):
     """-> (file object, cleanup)"""
     if kind == "raw":
         return sources.StallRaw(data, limit, chunk=rng.choice([1 << 30, 7, 64])), lambda: None
     if kind == "buffered":
         return io.BufferedReader(sources.StallRaw(data, limit, chunk=rng.choice([1 << 30, 7, 64]))), lambda: None
+    if kind == "rwpair":
+        # what socket.makefile("rwb") is: a BufferedIOBase that is not a BufferedReader
+        return io.BufferedRWPair(sources.StallRaw(data, limit, chunk=rng.choice([1 << 30, 7, 64])), _NullWriter()), lambda: None
+    if kind == "response-like":
+        return _ResponseLike(io.BufferedReader(sources.StallRaw(data, limit, chunk=rng.choice([1 << 30, 64])))), lambda: None
     a, b = socket.socketpair()
     idle = threading.Event()
 
@@ -288,7 +327,7 @@ def parse_case(ctx, rng):
     rng.shuffle(js)
     for j in js[: 6 if ctx.tier == "quick" else 30]:
         limit = frames[j - 1]["span"][1]
-        for kind in ("raw", "buffered", rng.choice(["socket-raw", "socket-buffered"])):
+        for kind in ("raw", "buffered", rng.choice(["rwpair", "response-like"]), rng.choice(["socket-raw", "socket-buffered"])):
             for integ in integs:
                 entry = rng.choice(["flat", "flat", "grouped"])
                 f, cleanup = stall_source(kind, data, limit, rng)
@@ -385,6 +424,7 @@ def classify(w: dict):
                 return "C11/graphs-physical-read-ahead/generic"
             return "C11/graphs-physical-read-ahead/rdflib-materialises"
         return None
-    if c == "frames-not-delivered-before-stall" and w.get("source") in ("buffered", "socket-buffered") and w.get("yielded") == 0:
+    if c == "frames-not-delivered-before-stall" and w.get("source") in ("buffered", "socket-buffered", "rwpair", "response-like") \
+            and w.get("yielded") == 0:
         return "C11/double-buffered-non-seekable"
     return None
